@@ -463,7 +463,7 @@ static void op_svd_eig(void) {
   else if (src == 1) { m = n = 1 + vx_choose("n-1", 8); int fam = vx_choose("fam", vx_thorough() ? 4 : 2), sc = vx_choose("scale", 3); double V[NMAX * NMAX]; vg_fill(fam + 800, n, n, V);
     for (int i = 0; i < n; i++) for (int j = 0; j < n; j++) { ld s = 0; for (int k = 0; k < n; k++) s += (ld)V[k * n + i] * V[k * n + j]; a[i * n + j] = (double)((s + (i == j ? 0.25L : 0)) * (ld)S1S[sc]); }
     for (int i = 0; i < n; i++) for (int j = 0; j < i; j++) a[i * n + j] = a[j * n + i]; snprintf(tag, sizeof tag, "spd(n=%d,fam=%d,scale=%g)", n, fam, S1S[sc]); }
-  else if (src == 2) { m = n = 1 + vx_choose("n-1", 8); int ki = vx_choose("kappa", 2), fam = vx_choose("fam", vx_thorough() ? 4 : 2); vg_spectral(fam * 8 + ki + 820, n, n, 1.0, n > 1 ? pow(KAPPAS[ki], -1.0 / (n - 1)) : 1.0, a); snprintf(tag, sizeof tag, "general(n=%d,kappa=%g,fam=%d)", n, KAPPAS[ki], fam); }
+  else if (src == 2) { m = n = 1 + vx_choose("n-1", 8); int ki = vx_choose("kappa", 3), fam = vx_choose("fam", vx_thorough() ? 4 : 2); vg_spectral(fam * 8 + ki + 820, n, n, 1.0, n > 1 ? pow(KAPPAS[ki], -1.0 / (n - 1)) : 1.0, a); snprintf(tag, sizeof tag, "general(n=%d,kappa=%g,fam=%d)", n, KAPPAS[ki], fam); }
   else { int sh = vx_choose("shape", 4); static const int shp[4][2] = {{3, 2}, {2, 3}, {6, 4}, {4, 6}}; m = shp[sh][0]; n = shp[sh][1]; int fam = vx_choose("fam", 2); vg_spectral(fam + 840, m, n, 1.0, 0.7, a); snprintf(tag, sizeof tag, "rect(%dx%d,fam=%d)", m, n, fam); }
   rmat *R = rm_of(a, m, n); int r = m < n ? m : n; ld sref[NMAX]; rm_singular_values(R, sref); double scale = (double)rm_fro(R);
   int sym = m == n; for (int i = 0; i < n && sym; i++) for (int j = 0; j < i; j++) if (a[i * n + j] != a[j * n + i]) sym = 0;
